@@ -55,7 +55,7 @@ def tableDescOf (A' B : List Tbl) (k : Key) : ObjDesc :=
 def targetDescOf (A' B : List Tbl) (o : Op) : ObjDesc :=
   let k := o.key
   match o.kind with
-  | .createTable | .dropTable => tableDescOf A' B k
+  | .createTable | .dropTable | .tableComment => tableDescOf A' B k
   | .addColumn => ⟨o.name, .column, false, false, k.1, k.2⟩
   | .dropColumn => ⟨o.name, .column, true, false, k.1, k.2⟩
   | .alterColumn => ⟨o.name, .column, false, true, k.1, k.2⟩
